@@ -149,10 +149,11 @@ func (srv *Session) consumeSingleCommand(ctx context.Context, reader *buffer.Rea
 	err = srv.handleCommand(ctx, conn, t, reader, writer)
 	srv.wg.Done()
 	verifYield("cmd.done")
-	if errors.Is(err, io.EOF) {
-		return nil
-	}
 
+	// NOTE: an io.EOF is returned once the client terminated the connection.
+	// The error is passed on to stop consuming commands: messages which have
+	// been pipelined after the Terminate message (and might already have been
+	// buffered) should never be handled.
 	return err
 }
 
